@@ -184,6 +184,14 @@ func runSubscriberGroup(t *testing.T, group []map[string]any, withVerifier, metr
 				return verifierErr(curKind)
 			})
 		}
+		if withVerifier {
+			// a second registration is refused, and the refused verifier (which would reject everything) is never consulted
+			if err := sub.SetVerifier(func(context.Context, *vh.Header) error {
+				return errors.New("a verifier whose registration was refused has been consulted")
+			}); err == nil {
+				t.Fatal("harness: a second SetVerifier was accepted")
+			}
+		}
 		if verifierFirst {
 			if err := sub.Start(ctx); err != nil {
 				t.Fatal(err)
